@@ -110,10 +110,15 @@ Definition setvar (T:table) (v x:nat) (s:mst) : mst :=
                                 | None => if (ns <? r_dep (rd T r)) || memn r (v_expl d) then None else sl end) 0 (m_slots s))
         (m_cnt s).
 
-Inductive op := SetVar (v x:nat) | Realize (g:stage) | Query (r:nat).
+(** State copy construction (the history continues on the copy): variables and the realized stage are kept through Instance;
+    every cached value above that, and every cache entry with explicit prerequisites, reads invalid in the copy (C18
+    copy_stage_rule / g_copy); the evaluation counters belong to the System, not to the State *)
+Definition copy_state (T:table) (s:mst) : mst := mkM (m_vals s) (Nat.min (m_stg s) 3) (repeat None (nres T)) (m_cnt s).
+
+Inductive op := SetVar (v x:nat) | Realize (g:stage) | Query (r:nat) | Copy.
 
 Definition step (T:table) (s:mst) (o:op) : mst :=
-  match o with SetVar v x => setvar T v x s | Realize g => realize T g s | Query r => query T r s end.
+  match o with SetVar v x => setvar T v x s | Realize g => realize T g s | Query r => query T r s | Copy => copy_state T s end.
 Definition run (T:table) (s:mst) (l:list op) : mst := fold_left (step T) l s.
 
 (** a newly created State holding the given values, realized through Model *)
@@ -154,7 +159,7 @@ Definition tr (T:table) (r:nat) : list nat := treads T (S r) r.
 (** ---------------------------------------------------------------- well-formedness and soundness of a table (decidable) *)
 Definition wf_res (T:table) (r:nat) (d:rdesc) : bool :=
   (3 <=? r_dep d)
-  && (match r_by d with Some b => r_dep d <=? b | None => true end)
+  && (match r_by d with Some b => (r_dep d <=? b) && (4 <=? b) | None => true end)
   && (match r_lazy d with Some l => r_dep d <=? l | None => true end)
   && forallb (fun x => match x with
                        | SV v => v <? nvars T
